@@ -19,7 +19,8 @@ def gen(c, binary):
 def run(c):
     c.rule = ("one case = one clock script on a real agent.Shard: 40-260 ops mixing events through all 7 Shard entry points and "
               "Agent.Map+ApplyMetric driven like the receiver (ONE long-living scratch per case, metrics of every sharding strategy incl. tags_hash, "
-              "the same logical row repeated with permuted tags / warmer mapping cache / other scratch leftovers) (timestamps 0, around CurrentTime/SendTime, far past/future, uint32 edge; all 12 allowed "
+              "the same logical row repeated with permuted tags / warmer mapping cache / other scratch leftovers / with and without a scratch buffer (internal/stats path), "
+              "Agent.updateRemoteConfig with remote descriptions setting both / one / none of the hardware resolutions before events of real builtin fast and slow hardware metrics; timestamps 0, around CurrentTime/SendTime, far past/future, uint32 edge; all 12 allowed "
               "resolutions; nil/normal/hardware metric infos; dropIfBeforeTimestamp), flushBuckets(now) with 100 ms ticks, "
               "pauses, jumps ahead (incl. >125 s and whole laps) and back, a consumer that sometimes stalls, "
               "StopReceivingIncomingData, final FlushAllData; plus pure mapAllTags/OriginalMarshalAppend ops under shuffled "
